@@ -74,6 +74,10 @@ pub struct VmCase {
     pub per_yield: u64,
     pub container: Container,
     pub shape: String,
+    /// the VM is run the way the checker runs it: from inside the pool (`current_thread_index()`
+    /// is `Some`), not from an outside thread
+    #[serde(default)]
+    pub on_worker: bool,
 }
 
 impl VmCase {
@@ -293,6 +297,9 @@ pub fn exec_real_as(case: &VmCase, vm: &mut Vm, limit_total: u64, index: usize) 
         total: limit_total,
     };
     let ops = case.ops();
+    if case.on_worker && rayon::current_thread_index().is_none() {
+        return rayon::sim::as_pool_worker(0, || exec_real_as(case, vm, limit_total, index));
+    }
     let r = match &case.container {
         Container::Slice => vm.exec_ops(&ops, access, &st, &cost, limit),
         Container::MappedOwned => match BytecodeMapped::try_from_bytes(case.program.clone()) {
